@@ -423,6 +423,7 @@ func c13(r *Report) {
 				}
 			}
 		}
+		multiErrorOnlyGrows(r)
 		ap := r.Use("verify", "appendError")
 		if ap != nil {
 			ok := false
@@ -460,6 +461,21 @@ func c13(r *Report) {
 					}
 				}
 			}
+			// ... and every error of the list gets its entry: no trip round the loop skips the append
+			isAppend := func(i ssa.Instruction) bool {
+				st, isSt := i.(*ssa.Store)
+				if !isSt {
+					return false
+				}
+				fa, isFa := st.Addr.(*ssa.FieldAddr)
+				return isFa && fieldObj(fa).Name() == "Errors" && namedOf(fa.X.Type()) == "verifyResponse"
+			}
+			nl, badHead := everyRoundPasses(ap, isAppend)
+			pos := ap.Pos()
+			if badHead != nil {
+				pos = badHead.Instrs[0].Pos()
+			}
+			r.Decide("path", "M/verify.appendError appends an entry for every error of the list", nl >= 1 && badHead == nil, "the append lies on every trip round the loop", "the loop over the errors can go round without appending (a filter on the message, a de-duplication): two evaluations that failed with the same text are reported as one", pos)
 			r.Decide("flow", "M/verify.appendError reports each error as one entry with its whole text", nMsg > 0 && whole, "Message: err.Error()", "an entry's message is a piece of the error text (split on line breaks, trimmed): one unmet expectation with a multi-line message is reported as several errors", ap.Pos())
 		}
 	})
